@@ -95,8 +95,43 @@ def relational(cases, impl):
     return fails
 
 
-def cases(tier, rng, ifaces):
+SWEEP = [(b'*IDN?\n', b'"MICROSCPI,TEST,1,1.0"\n'), (b'ARB?\n', b'#15a\nb;c\n'), (b'CHAR?\n', b'VOLT\n'),
+         (b'ECHO:U8? 7\n', b'7\n'), (b'ECHO:BOOL? ON\n', b'1\n')]
+
+
+def sweep_oracle(line, case):
+    """a query whose message and whose terminated response both fit the N-byte buffers is answered completely
+    (response, newline, flush) before the next read — for every N, in particular when the response fills the buffer exactly"""
+    r = oracle(line, case)
+    if r:
+        return r
+    f = parse_fields(line)
+    tr = parse_list(f.get('tr', '[]'))
+    want = case.meta['resp']
+    ws = [i for i, t in enumerate(tr) if t.startswith('W:')]
+    if len(ws) != 1 or tr[ws[0]] != 'W:' + hx(want) or tr[ws[0] + 1:ws[0] + 2] != ['F']:
+        return f'expected the response {want!r} written and flushed once: {tr}'
+    if parse_list(f.get('errs', '[]')):
+        return f"no error expected: {f.get('errs')}"
+    return None
+
+
+def sweep_cases(tier):
     out = []
+    gid = 10 ** 6
+    for msg, resp in SWEEP:
+        for n in list(range(1, 25)) + [32]:
+            if len(msg) > n or len(resp) > n:
+                continue
+            for sched in ('-', ','.join(['1'] * len(msg))):
+                gid += 1
+                out.append(Case(f'PROC echo {n} {hx(msg)} {sched}', sweep_oracle,
+                                {'group': gid, 'kind': 'PROC-sweep', 'msg': msg, 'resp': resp}))
+    return out
+
+
+def cases(tier, rng, ifaces):
+    out = sweep_cases(tier)
     echo = ifaces['echo']
     streams = [b'ECHO:BOOL? ON;X\n', b'X;ECHO:U8? 7\nX\n', b'ECHO:U8? 200;X\nECHO:U8? 9\n', b'*IDN?;:STR "ab\ncd"\n', b'CHAR?;:BLK #15ab\ncd;*IDN?\n', b'ECHO:U8? 7;:STR "\n\n";:ECHO:U8? 8\n', b'*IDN?\n', b'X\n*IDN?\nX\n', b'ECHO:U8? 1;:ECHO:U8? 2\nFOO\nECHO:BOOL? ON\n', b'STR "a\nb";:CHAR?\n', b'\n\n', b'ARB?\nLONG?\n',
                b'SYST:ERR?\nNOPE\nSYST:ERR?\nSYST:ERR:COUN?\n', b'X']
